@@ -1597,3 +1597,81 @@ def check_pda_to_cfg(ctx, rep, f, rule=RULE + '.M33'):
         rep.undecided(rule, f, 'def ' + f.name, 'outside the evaluator: {}'.format(e))
         return
     rep.holds(rule, f, 'def ' + f.name, 'on {} runs (eight model PDAs, two iteration orders of sets) the grammar derives exactly the words up to length 3 resp. 2 that the PDA accepts, and the PDA handed in is untouched'.format(cases))
+
+
+# ---- Turing machine verdict and recorded run on model machines --------------------------------------------------------------------------
+
+def _tm(Q, Sigma, Gamma, trans, q0, acc, rej, blank='_'):
+    return Obj('TM', Q=set(Q), Sigma=set(Sigma), Gamma=set(Gamma), delta={(p, a): (q, b, d) for (p, a, q, b, d) in trans}, q0=q0, q_accept=acc, q_reject=rej, blank=blank)
+
+
+_TMS = {
+    'even number of 1s (missing transition rejects)': (['e', 'o', 'A', 'R'], ['0', '1'], ['0', '1', '_'], [('e', '0', 'e', '0', 'R'), ('e', '1', 'o', '1', 'R'), ('o', '0', 'o', '0', 'R'), ('o', '1', 'e', '1', 'R'), ('e', '_', 'A', '_', 'R')], 'e', 'A', 'R'),
+    'bumps at the left end forever on 0, accepts on 1': (['l', 'A', 'R'], ['0', '1'], ['0', '1', '_'], [('l', '0', 'l', '0', 'L'), ('l', '1', 'A', '1', 'L'), ('l', '_', 'R', '_', 'R')], 'l', 'A', 'R'),
+    'marks the first letter, runs to the end, comes back and checks the mark': (['s', 'r', 'b', 'A', 'R'], ['0', '1'], ['0', '1', 'x', '_'], [('s', '0', 'r', 'x', 'R'), ('s', '1', 'R', '1', 'R'), ('r', '0', 'r', '0', 'R'), ('r', '1', 'r', '1', 'R'), ('r', '_', 'b', '_', 'L'), ('b', '0', 'b', '0', 'L'), ('b', '1', 'b', '1', 'L'), ('b', 'x', 'A', 'x', 'L')], 's', 'A', 'R'),
+    'initial state is the accepting state': (['A', 'R'], ['0'], ['0', '_'], [], 'A', 'A', 'R'),
+    'writes blanks over the word and rejects at the end': (['w', 'A', 'R'], ['0', '1'], ['0', '1', '_'], [('w', '0', 'w', '_', 'R'), ('w', '1', 'w', '_', 'R'), ('w', '_', 'R', '_', 'L')], 'w', 'A', 'R'),
+}
+
+
+def _tm_ref(T, w, k):
+    f = T._f
+    tape = list(w) or [f['blank']]
+    head, q = 0, f['q0']
+    rows = [(q, tuple(tape), head)]
+    if q in (f['q_accept'], f['q_reject']):
+        return (q == f['q_accept']), rows
+    for _ in range(k):
+        a = tape[head]
+        if (q, a) in f['delta']:
+            q, b, d = f['delta'][q, a]
+        else:
+            q, b, d = f['q_reject'], a, 'R'
+        tape[head] = b
+        head = max(head - 1, 0) if d == 'L' else head + 1
+        if head == len(tape):
+            tape.append(f['blank'])
+        rows.append((q, tuple(tape), head))
+        if q in (f['q_accept'], f['q_reject']):
+            return (q == f['q_accept']), rows
+    return None, rows
+
+
+def check_tm(ctx, rep, f_acc, f_sim, rule=RULE + '.M34'):
+    """tm_accepts_word and tm_simulate_word on five model machines, all words up to length 3 and the budgets 0, 1, 2, 3, 5, 8, 40:
+    the verdict is True / False exactly when the accepting / rejecting state is entered within the budget and None otherwise; the
+    recorded sequence is the sequence of configurations of the definition (a missing transition moves to the rejecting state,
+    a left move at the left end stays put), stops at the first halting state and has at most budget + 1 rows; every recorded
+    tape is a snapshot (later steps do not change earlier rows)."""
+    cases = 0
+    try:
+        for name, spec in _TMS.items():
+            sigma = sorted(spec[1])
+            for n in range(4):
+                for tup in itertools.product(sigma, repeat=n):
+                    w = ''.join(tup)
+                    for k in (0, 1, 2, 3, 5, 8, 40):
+                        T0 = _tm(*spec)
+                        want, rows = _tm_ref(T0, w, k)
+                        ok, got = _run(rule, rep, f_acc, lambda: _interp(ctx, 'asc', max_steps=400000).call(f_acc, [T0, w, k]), 'on the machine "{}", the word {!r} and the budget {}'.format(name, w, k))
+                        if not ok:
+                            return
+                        cases += 1
+                        if got is not want and got != want or (got is None) != (want is None):
+                            rep.violates(rule, f_acc, 'def ' + f_acc.name, 'on the machine "{}", the word {!r} and the budget {} the verdict is {} instead of {}'.format(name, w, k, got, want))
+                            return
+                        ok, run = _run(rule, rep, f_sim, lambda: _interp(ctx, 'asc', max_steps=400000).call(f_sim, [_tm(*spec), w, k]), 'on the machine "{}", the word {!r} and the budget {}'.format(name, w, k))
+                        if not ok:
+                            return
+                        if not isinstance(run, list) or not all(isinstance(r, tuple) and len(r) == 3 for r in run):
+                            raise Unsupported('the run is not a list of triples')
+                        have = [(str(q), tuple(str(x) for x in tape), h) for q, tape, h in run]
+                        if have != rows:
+                            i = next((j for j, (x, y) in enumerate(zip(have, rows)) if x != y), min(len(have), len(rows)))
+                            rep.violates(rule, f_sim, 'def ' + f_sim.name, 'on the machine "{}", the word {!r} and the budget {} the recorded run differs from the configuration sequence of the definition at row {}: {} instead of {}'.format(
+                                name, w, k, i, have[i] if i < len(have) else 'nothing', rows[i] if i < len(rows) else 'nothing (the run must stop there)'))
+                            return
+    except (Unsupported, RecursionError) as e:
+        rep.undecided(rule, f_acc, 'def ' + f_acc.name, 'outside the evaluator: {}'.format(e))
+        return
+    rep.holds(rule, f_acc, 'def ' + f_acc.name + ' / ' + f_sim.name, 'on {} evaluations (five model machines, all words up to length 3, seven budgets) the verdict and the recorded run are those of the definition'.format(cases))
